@@ -27,6 +27,7 @@ import (
 	"runtime/debug"
 	"strings"
 	"testing"
+	"time"
 
 	"github.com/opencontainers/go-digest"
 
@@ -41,8 +42,11 @@ func c20AllCases(thorough bool) ([]c20Case, map[string]int) {
 		maxSegs = 4
 	}
 	names := c20Names(maxSegs)
-	enc, alg, spec := c20Digests(names, c20Depth+3)
-	info := map[string]int{"max_segments": maxSegs, "names": len(names), "digests_enc": len(enc), "digests_alg": len(alg), "digests_special": len(spec)}
+	// hostile ALGORITHM parts: one segment less than the names (the algorithm is a single path
+	// component in blobs/<algorithm>/<encoded>, so every extra segment only adds depth)
+	enc, _, spec := c20Digests(names, c20Depth+3)
+	_, alg, _ := c20Digests(c20Names(maxSegs-1), c20Depth+3)
+	info := map[string]int{"max_segments": maxSegs, "max_segments_algorithm_part": maxSegs - 1, "names": len(names), "digests_enc": len(enc), "digests_alg": len(alg), "digests_special": len(spec)}
 	var cs []c20Case
 	add := func(route, variant string, ins ...string) {
 		for _, in := range ins {
@@ -67,7 +71,7 @@ func c20AllCases(thorough bool) ([]c20Case, map[string]int) {
 	}
 	// route iii
 	for _, tgt := range []string{"@dir", "@mem"} {
-		for _, v := range []string{"extra-reg", "extra-dir", "blob-sym", "blob-hard", "sym-name"} {
+		for _, v := range []string{"extra-reg", "extra-dir", "blob-sym", "blob-hard", "sym-name", "docker-names"} {
 			add("iii", v+tgt, names...)
 		}
 		for _, v := range []string{"blob-sym", "blob-hard"} {
@@ -216,11 +220,11 @@ func (rn *c20Runner) expect(c c20Case, res c20Result) (what string, ok bool) {
 				return "file at <out>/<name>", res.err == nil && has(c.In, c20Payload)
 			}
 		case "dir":
-			return "directory and file below it", res.err == nil && has(c.In+"/c20in", c20Payload)
+			return "directory and file below it", res.err == nil && has(c.In+"/"+c20InName, c20Payload)
 		}
 	case "iii":
 		kind := c.Variant[:strings.Index(c.Variant, "@")]
-		if (kind == "extra-reg" || kind == "extra-dir" || kind == "sym-name") && c20NameBenign(c.In) {
+		if (kind == "extra-reg" || kind == "extra-dir" || kind == "sym-name" || kind == "docker-names") && c20NameBenign(c.In) {
 			return "import succeeds and the layer is stored", res.err == nil && res.note == "layer-present"
 		}
 	case "iv":
@@ -396,6 +400,7 @@ func (rn *c20Runner) run(c c20Case) {
 			rec.Count(c.Route+".benign_as_expected", 1)
 		}
 		if rn.sample {
+			// (self-test cases are sampled below)
 			e := ""
 			if res.err != nil {
 				e = res.err.Error()
@@ -415,6 +420,13 @@ func (rn *c20Runner) run(c c20Case) {
 			up, _, _ = c20DigestLexical(in)
 		}
 		flagged := len(diff) > 0 || readEsc != ""
+		if c.Route == "self" && !c20PureClimb(in) {
+			// c20a/../../x: the kernel refuses to walk through a missing c20a, lexical cleaning does not;
+			// only the "flagged implies escaping" direction is demanded of such names
+			if up > 0 && !flagged {
+				up = -1
+			}
+		}
 		escapedWrite := up > 0 && res.note == "wrote"
 		escapedRead := up > 0 && res.err == nil && len(res.read) > 0 && strings.Contains(c.Variant, "get") || up > 0 && res.err == nil && len(res.read) > 0 && strings.Contains(c.Variant, "read")
 		switch {
@@ -422,6 +434,9 @@ func (rn *c20Runner) run(c c20Case) {
 			rec.HarnessError("oracle self-test: unsafe %s on %q escaped (climbs %d levels, note=%q, read %d bytes) but the oracle saw nothing", c.Variant, c.In, up, res.note, len(res.read))
 		case up == 0 && flagged:
 			rec.HarnessError("oracle self-test: unsafe %s on %q stays inside the directory but the oracle flagged it: %v %s", c.Variant, c.In, diff, readEsc)
+		}
+		if rn.sample {
+			rec.Sample(map[string]any{"route": c.Route, "variant": c.Variant, "in": c20Short(c.In), "unsafe_reference_implementation": true, "climbs_levels": up, "flagged_by_oracle": flagged})
 		}
 		if flagged {
 			rn.selfCaught++
@@ -441,13 +456,19 @@ func (rn *c20Runner) run(c c20Case) {
 		}
 	}
 	if len(diff) > 0 {
-		if err := rn.rebuildGuard(); err != nil {
-			rec.HarnessError("guard: %v", err)
-			rn.g = nil
+		if rn.g.repair(rn.before, after) {
+			rec.Count("guard_repairs", 1)
+			rn.before = nil
+		} else {
+			if err := rn.rebuildGuard(); err != nil {
+				rec.HarnessError("guard: %v", err)
+				rn.g = nil
+			}
+			return // the rebuilt guard has an empty output directory; prepare() repopulates it
 		}
-		return
+	} else {
+		rn.before = after
 	}
-	rn.before = after
 	if inside != rn.pristine {
 		if err := rn.restore(insideL); err != nil {
 			rec.HarnessError("reset output directory: %v", err)
@@ -468,7 +489,7 @@ func TestVerifC20(t *testing.T) {
 	defer rec.Flush(t)
 	debug.SetGCPercent(400)
 	rec.Rule("names = lead+seg/…/seg+trail over segments {.., ., empty, plain, 'with space', 255-byte, embedded NUL, existing file, existing dir}, 0..3 segments (quick) / 0..4 (thorough), lead in {'', '/'}, trail in {'', '/', '//'}, duplicates dropped; " +
-		"digests = 'sha256:'+name, name+':'+hex for every name, plus a fixed list of specials; every string is run through every variant of route i (regctl artifact get --output, in process: title ± --strip-dirs ± unpack annotation, digest-as-name), " +
+		"digests = 'sha256:'+name for every name, name+':'+hex for every name of up to 2 (quick) / 3 (thorough) segments, plus a fixed list of specials; every string is run through every variant of route i (regctl artifact get --output, in process: title ± --strip-dirs ± unpack annotation, digest-as-name), " +
 		"ii (archive.Extract: regular/dir entry names, symlink+hardlink entries with the string as target or as name followed by a file through the link), iii (ImageImport of OCI layout tars into an ocidir inside the directory and into an in-memory registry: extra entries, blobs behind links, hostile digests in index/manifest/reference) and " +
 		"iv (24 ocidir operations through RegClient with the string as descriptor digest, reference digest, subject digest, index.json entry or tag). One evaluation = one (route, variant, string) executed on the real code and judged by the guard listing. " +
 		"distinct_nontrivial = distinct (route, variant, string) triples on the real code whose string is hostile: a name that is not a plain relative path of fresh ordinary segments, or a digest for which Digest.Validate() fails; self-test cases and benign controls are not counted")
@@ -543,6 +564,9 @@ func TestVerifC20(t *testing.T) {
 	rec.Info("cases_total", len(cases))
 	rec.Info("guard_depth", c20Depth)
 	only := os.Getenv("VERIF_C20_ONLY")
+	expired := false
+	routeNS := map[string]time.Duration{}
+	sampled := map[string]bool{}
 	for i, c := range cases {
 		if !rec.Mine(i) {
 			continue
@@ -551,12 +575,31 @@ func TestVerifC20(t *testing.T) {
 			continue
 		}
 		if i&255 == 0 && rec.Expired() {
+			expired = true
 			rec.NotExhaustive(fmt.Sprintf("wall-clock budget reached in shard %d at case %d of %d", rec.ShardI, i, len(cases)))
 			break
 		}
-		stride := len(cases)/rec.NShards/5 + 1
-		rn.sample = (i/rec.NShards)%stride == stride/2
+		// a few actual cases for the evidence file: per route the first traversal-shaped input of shard 0
+		rn.sample = rec.ShardI == 0 && !sampled[c.Route] && strings.Contains(c.In, "../") && strings.Contains(c.In, c20SegFile)
+		if rn.sample {
+			sampled[c.Route] = true
+			rec.SampleCap = 8
+		}
+		t0 := time.Now()
 		rn.run(c)
+		routeNS[c.Route] += time.Since(t0)
+	}
+	for r, d := range routeNS {
+		rec.Count(r+".wall_ms", d.Milliseconds())
+	}
+	if rn.g == nil {
+		return
+	}
+	if tp := rn.g.topPresent(); len(tp) > 0 {
+		for _, n := range tp {
+			_ = os.RemoveAll("/" + n)
+		}
+		rec.Note(fmt.Sprintf("entries with watched names were present under / at the end of shard %d and were removed: %d", rec.ShardI, len(tp)))
 	}
 	// closing listing with every content hash recomputed
 	if rn.g != nil && rn.before != nil {
@@ -586,11 +629,11 @@ func TestVerifC20(t *testing.T) {
 		x[1] += v
 		tot[r] = x
 	}
-	if rn.selfCaught == 0 {
+	if rn.selfCaught == 0 && !expired {
 		rec.HarnessError("vacuity: the oracle self-test never flagged the unsafe reference implementations in this shard")
 	}
 	for _, r := range []string{"i", "ii", "iii", "iv"} {
-		if tot[r][0] == 0 || tot[r][1] == 0 {
+		if (tot[r][0] == 0 || tot[r][1] == 0) && !expired {
 			rec.HarnessError("vacuity: route %s saw %d successes and %d errors in this shard", r, tot[r][0], tot[r][1])
 		}
 	}
